@@ -193,6 +193,11 @@ def make_rundir_turtlemd(spec):
     cfg["simulation"]["tis_set"]["maxlength"] = spec["maxlength"]
     if spec.get("cap") is not None:
         cfg["simulation"]["tis_set"]["interface_cap"] = spec["cap"]
+    if spec.get("interfaces"):
+        # another interface set for the same well; the first paths of load_copy are valid for it (path k crosses its interface)
+        cfg["simulation"]["interfaces"] = list(spec["interfaces"])
+        for k in range(len(spec["interfaces"]), 8):
+            shutil.rmtree(os.path.join(d, "load", str(k)), ignore_errors=True)
     if spec.get("two_engines"):
         # multi-engine layout (examples/gromacs/H2_multi_engine): the plus ensembles list two engines, moves use the first
         import copy
